@@ -828,16 +828,23 @@ class Interp:
             env[norm(target.value)].fields[target.attr] = value
         elif isinstance(target, ast.Attribute) and isinstance(target.value, ast.Attribute) and isinstance(self._try_ev(target.value, env), Obj):
             self._try_ev(target.value, env).fields[target.attr] = value
+        elif isinstance(target, ast.Attribute) and isinstance(target.value, ast.Name) and self.native_types and isinstance(env.get(target.value.id), self.native_types) and not isinstance(env.get(target.value.id), type):
+            setattr(env[target.value.id], target.attr, value)  # a representative object of the checker bound to a local
         elif isinstance(target, ast.Attribute) and isinstance(target.value, ast.Name) and target.value.id not in env and isinstance(self._try_ev(target.value, env), ClassRef):
             self.class_store[self._try_ev(target.value, env).name, target.attr] = value
         elif isinstance(target, ast.Subscript) and isinstance(env.get(norm(target.value)), (list, dict)):
-            _guard(env[norm(target.value)].__setitem__, self.ev(target.slice, env), value)
+            _guard(env[norm(target.value)].__setitem__, self._slice_key(target.slice, env), value)
         elif isinstance(target, ast.Subscript) and isinstance(target.value, ast.Attribute) and isinstance(self._try_ev(target.value, env), (list, dict)):
-            _guard(self._try_ev(target.value, env).__setitem__, self.ev(target.slice, env), value)
+            _guard(self._try_ev(target.value, env).__setitem__, self._slice_key(target.slice, env), value)
         else:
             env[norm(target)] = value
             if self.on_store is not None:
                 self.on_store(norm(target), value)
+
+    def _slice_key(self, sl, env):
+        if isinstance(sl, ast.Slice):
+            return slice(*(None if x is None else self.ev(x, env) for x in (sl.lower, sl.upper, sl.step)))
+        return self.ev(sl, env)
 
     def _try_ev(self, e, env):
         try:
